@@ -89,6 +89,7 @@ static int step(app *a, int op)
     bbuf raw;
     vf_progress++;
     cur_op = op;
+    vf_stack_paint();
     switch (op) {
     case S_NEXT: r = binson_parser_next(p); a->last = 0; if (r) { binson_type t = binson_parser_get_type(p); a->last = t == BINSON_TYPE_OBJECT ? 'O' : t == BINSON_TYPE_ARRAY ? 'A' : 'v'; } return 1;
     case S_INTO_OBJ: r = binson_parser_go_into_object(p); a->last = 0; if (r) a->st[a->sp++] = 'O'; return r;
